@@ -161,7 +161,7 @@ class FunctionLogger:
         if np.any(
             not np.isscalar(fval_orig)
             or not np.isfinite(fval_orig)
-            or not np.isreal(fval_orig)
+            or np.iscomplexobj(fval_orig)
         ):
             error_message = """FunctionLogger:InvalidFuncValue:
             The returned function value must be a finite real-valued scalar
@@ -170,7 +170,7 @@ class FunctionLogger:
 
         # Check returned function SD
         if self.he_noise_flag and (
-            fsd is None or not np.isfinite(fsd) or not np.isreal(fsd) or fsd <= 0.0
+            fsd is None or np.iscomplexobj(fsd) or not np.isfinite(fsd) or fsd <= 0.0
         ):
             error_message = """FunctionLogger:InvalidNoiseValue
                 The returned estimated SD (second function output)
@@ -256,7 +256,7 @@ class FunctionLogger:
         if (
             not np.isscalar(fval_orig)
             or not np.isfinite(fval_orig)
-            or not np.isreal(fval_orig)
+            or np.iscomplexobj(fval_orig)
         ):
             error_message = """FunctionLogger:InvalidFuncValue:
             The returned function value must be a finite real-valued scalar
@@ -265,7 +265,7 @@ class FunctionLogger:
 
         # Check returned function SD
         if self.noise_flag and (
-            not np.isscalar(fsd) or not np.isfinite(fsd) or not np.isreal(fsd) or fsd <= 0.0
+            not np.isscalar(fsd) or np.iscomplexobj(fsd) or not np.isfinite(fsd) or fsd <= 0.0
         ):
             error_message = """FunctionLogger:InvalidNoiseValue
                 The returned estimated SD (second function output)
